@@ -190,4 +190,30 @@ let () = each_line (fun line ->
            String.concat "," (List.sort compare (List.map (fun (_, a) ->
              match a with A4 (ip, _) -> "find_node@" ^ string_of_int (int_of_n ip land 255) | A6 _ -> "?") l))
        | FnFault -> "FAULT")
+  | "DS" :: own :: target :: toks ->
+      let num h = n_of_zt (BZ.of_string ("0x" ^ h)) in
+      let split_tok tok = let c = String.index tok ':' in
+        (String.sub tok 1 (c - 1), int_of_string (String.sub tok (c + 1) (String.length tok - c - 1))) in
+      let rec inits = function
+        | tok :: r when tok.[0] = 'I' -> let (i, k) = split_tok tok in let (l, rest) = inits r in
+            ((num i, A4 (n_of_int (0x7f000000 + k), n_of_int (1000 + k))) :: l, rest)
+        | r -> ([], r) in
+      let (init, rest) = inits toks in
+      let rec events = function
+        | [] -> []
+        | tok :: r when tok.[0] = 'E' ->
+            let rec body acc = function
+              | x :: r' when x.[0] <> 'E' ->
+                  let b = if x.[0] = 'R' then let (i, k) = split_tok x in
+                            bytes_of_hex i @ List.map n_of_int [127; 0; 0; k; 3; 232 + k]
+                          else bytes_of_hex (String.sub x 1 (String.length x - 1)) in
+                  body (acc @ b) r'
+              | r' -> (acc, r') in
+            let (nodes, r') = body [] r in
+            (num (fst (split_tok tok)), nodes) :: events r'
+        | _ -> failwith "ds" in
+      let segs = search_run (num own) (num target) init (events rest) in
+      String.concat " ; " (List.map (fun l ->
+        if l = [] then "-" else String.concat "," (List.sort compare (List.map (fun c ->
+          match c.c_addr with A4 (ip, _) -> "find_node@" ^ string_of_int (int_of_n ip land 255) | A6 _ -> "?") l))) segs)
   | _ -> "BADCASE")
